@@ -53,7 +53,7 @@ class Ctx:
         return thorough if self.thorough else quick
 
     # ---- correspondence: model vs implementation on the same inputs
-    def corr(self, cases, impl_fn, label, nontrivial=lambda arg, out: not isinstance(out, lib.E), decisive=None):
+    def corr(self, cases, impl_fn, label, nontrivial=lambda arg, out: not isinstance(out, lib.E), decisive=None, skip_model=None):
         """cases: list of (op, arg). impl_fn(op, arg) -> canonical python value / lib.E.
         decisive(op, arg) -> True when the theorems of this property determine the model's answer on
         this input (it lies in the proved domain): then, with the proofs intact, a disagreement means the
@@ -62,6 +62,9 @@ class Ctx:
             return
         model = lib.run_model(cases)
         for (op, arg), m in zip(cases, model):
+            if skip_model is not None and skip_model(lib.canon(m)):
+                self.dist[f"corr:{label}:unmodelled"] += 1       # the model declares the input outside what it models
+                continue
             got = lib.canon(impl_fn(op, arg))
             self.corr_total += 1
             self.evaluations += 1
